@@ -38,6 +38,7 @@ func main() {
 	var overlays multi
 	flag.Var(&overlays, "overlay", "file=replacement: analyse the tree with <file> replaced by the contents of <replacement> (in memory)")
 	sweep := flag.String("sweep", "", "development: statement-level variants of every function of this module package (short name), judged by all rule sets; result in replay/sweep-<pkg>-mutants.json")
+	genErrTable := flag.Bool("gen-errtable", false, "development: rewrite internal/rules/errtable.json (decisive error sites per function and callee) from the current tree")
 	genAnchors := flag.Bool("gen-anchors", false, "development: rewrite internal/load/anchors.json from the rules' sources and the current tree")
 	flag.Parse()
 	report.DryRun = *dry
@@ -84,6 +85,13 @@ func main() {
 	if err != nil {
 		fmt.Printf("CHECK-BROKEN property=%s cannot load %s: %v\n", *prop, *repo, err)
 		os.Exit(2)
+	}
+	if *genErrTable {
+		if err := rules.GenErrTable(p, filepath.Join(*verif, "checker/internal/rules/errtable.json")); err != nil {
+			fmt.Println(err)
+			os.Exit(2)
+		}
+		return
 	}
 	if *genAnchors {
 		if err := p.GenerateAnchors(filepath.Join(*verif, "checker/internal/rules"), filepath.Join(*verif, "checker/internal/load/anchors.json")); err != nil {
